@@ -170,7 +170,25 @@ func (c *Ctx) runC03Enum(idx int) (*artRun, bool) {
 				t := inlineTags[r.Intn(len(inlineTags))]
 				g.w("<" + t + ">" + g.toks(n) + "</" + t + ">")
 			case "a":
-				g.w(` <a href="/l/` + fmt.Sprint(len(g.L.Toks)) + `.html">` + g.toks(n) + `</a> `)
+				// plain paths, and (round 6) query strings built from the keywords the converter looks for in
+				// wiki "edit section" links — in the other order, far apart, or as parts of longer names; never
+				// the adjacent pair "action=edit" + "&section=", which is the one form that is skipped on purpose.
+				// Chosen by a hash of the position: no PRNG draw is added.
+				ln := fmt.Sprint(len(g.L.Toks))
+				href := "/l/" + ln + ".html"
+				switch mix64(uint64(len(g.L.Toks))*31+uint64(k)) % 10 {
+				case 0:
+					href = "/news?action=edition&section=sports&n=" + ln
+				case 1:
+					href = "/desk?section=local&action=editorial&n=" + ln
+				case 2:
+					href = "index.php?title=T" + ln + "&action=edit&redlink=1&subsection=2"
+				case 3:
+					href = "/w/index.php?section=3&action=edit&n=" + ln
+				case 4:
+					href = "/w/index.php?title=T" + ln + "&action=edit&redlink=1"
+				}
+				g.w(` <a href="` + href + `">` + g.toks(n) + `</a> `)
 			case "j1":
 				g.w(`<a href="javascript:void(0)">` + g.toks(n) + `</a>`)
 			case "jn":
